@@ -140,6 +140,90 @@ def concCmd (c : Cfg) (m : Mem) (cs? : Option ConcSt) (cmd : String) (args : Lis
   | "cend", [] => some (m, none, "ok")
   | _, _ => none
 
+/-! Packed metadata entries: every pure transition of `Tree`, `LocalTree` and `HugeEntry` on raw bits
+    (the functions the `Prog` model applies inside its atomic updates). -/
+def updT : Upd Tree → String
+  | .set t => "set " ++ toHex t.pack
+  | .skip => "none"
+  | .panic s => "panic " ++ s
+def updL : Upd LTree → String
+  | .set t => "set " ++ toHex t.pack
+  | .skip => "none"
+  | .panic s => "panic " ++ s
+def updH : Upd Nat → String
+  | .set v => "set " ++ toHex v
+  | .skip => "none"
+  | .panic s => "panic " ++ s
+
+def entStep (g : Geom) (cmd : String) (args : List String) : Option String :=
+  let tf := g.treeFrames
+  let tr := g.treeRows
+  match cmd, args with
+  | "et_with", [f, r, c] =>
+    match f.toNat?, c.toNat? with
+    | some f, some c => some (updT (Tree.with tf f (r == "1") c))
+    | _, _ => some "bad-op"
+  | "et_put", [raw, f, p, d] =>
+    match parseHex raw, f.toNat?, parsePolicy g p, d.toNat? with
+    | some raw, some f, some p, some d => some (updT (Tree.put tf (Tree.unpack raw) f p d))
+    | _, _, _, _ => some "bad-op"
+  | "et_steal", [raw, c, f, p] =>
+    match parseHex raw, c.toNat?, f.toNat?, parsePolicy g p with
+    | some raw, some c, some f, some p => some (updT (Upd.ofOption ((Tree.unpack raw).steal c f p)))
+    | _, _, _, _ => some "bad-op"
+  | "et_ros", [raw, f, p, c] =>
+    match parseHex raw, f.toNat?, parsePolicy g p, c.toNat? with
+    | some raw, some f, some p, some c => some (updT (Tree.reserveOrSteal tf (Tree.unpack raw) f p c))
+    | _, _, _, _ => some "bad-op"
+  | "et_ua", [raw, f, c, p, d] =>
+    match parseHex raw, f.toNat?, c.toNat?, parsePolicy g p, d.toNat? with
+    | some raw, some f, some c, some p, some d => some (updT (Tree.unreserveAdd tf (Tree.unpack raw) f c p d))
+    | _, _, _, _, _ => some "bad-op"
+  | "et_ss", [raw, m] =>
+    match parseHex raw, m.toNat? with
+    | some raw, some m => some (updT (Upd.ofOption ((Tree.unpack raw).syncSteal m)))
+    | _, _ => some "bad-op"
+  | "et_chg", [raw, mc, mf, cc, op, fetch] =>
+    let op? : Option (Option Tree.Op) := match op with
+      | "on" => some (some .online) | "off" => some (some .offline) | "-" => some none | _ => none
+    match parseHex raw, optNat mc, mf.toNat?, optNat cc, op?, fetch.toNat? with
+    | some raw, some mc, some mf, some cc, some op, some fetch =>
+      some (updT (Tree.change (Tree.unpack raw) mc mf cc op fetch))
+    | _, _, _, _, _, _ => some "bad-op"
+  | "el_with", [r, f] =>
+    match r.toNat?, f.toNat? with
+    | some r, some f => some (updL (LTree.with r f))
+    | _, _ => some "bad-op"
+  | "el_get", [raw, t, f] =>
+    match parseHex raw, optNat t, f.toNat? with
+    | some raw, some t, some f => some (updL (Upd.ofOption ((LTree.unpack raw).get tr t f)))
+    | _, _, _ => some "bad-op"
+  | "el_put", [raw, t, f] =>
+    match parseHex raw, t.toNat?, f.toNat? with
+    | some raw, some t, some f => some (updL ((LTree.unpack raw).put tr tf t f))
+    | _, _, _ => some "bad-op"
+  | "el_start", [raw, r] =>
+    match parseHex raw, r.toNat? with
+    | some raw, some r => some (updL ((LTree.unpack raw).setStart tr r))
+    | _, _ => some "bad-op"
+  | "eh_new", [f] =>
+    match f.toNat? with
+    | some f => some (updH (.set (Huge.newWith f)))
+    | none => some "bad-op"
+  | "eh_view", [raw] =>
+    match parseHex raw with
+    | some raw => some s!"view {if Huge.isHuge raw then 1 else 0} {Huge.free raw}"
+    | none => some "bad-op"
+  | "eh_dec", [raw, n] =>
+    match parseHex raw, n.toNat? with
+    | some raw, some n => some (updH (Upd.ofOption (Huge.dec raw n)))
+    | _, _ => some "bad-op"
+  | "eh_inc", [raw, n] =>
+    match parseHex raw, n.toNat? with
+    | some raw, some n => some (updH (Huge.inc (2 ^ g.hugeOrder) raw n))
+    | _, _ => some "bad-op"
+  | _, _ => none
+
 def run {α} (st : St) (p : Prog α) : St × Outcome α :=
   let (m, o) := runSolo p st.mem
   ({ st with mem := m }, o)
@@ -199,7 +283,7 @@ def step (st : St) (line : String) : St × String :=
     | _, _, _, _ => (st, "bad-op")
   | cmd :: args =>
     match st.cfg with
-    | none => (st, (unitStep st.geom.treeFrames cmd args).getD "bad-op no-cfg")
+    | none => (st, ((entStep st.geom cmd args).orElse fun _ => unitStep st.geom.treeFrames cmd args).getD "bad-op no-cfg")
     | some c =>
       match cmd, args with
       | "get", [o, k, l, f] =>
@@ -286,7 +370,7 @@ def step (st : St) (line : String) : St × String :=
       | "hash", [] => (st, "hash " ++ toHex st.mem.digest.toNat)
       | "dump", [] => (st, dumpStr st.mem)
       | _, _ =>
-        match evalStep c cmd args with
+        match (entStep c.geom cmd args).orElse fun _ => evalStep c cmd args with
         | some r => (st, r)
         | none =>
           match concCmd c st.mem st.conc cmd args with
